@@ -36,7 +36,8 @@ Generic(n)     == [Q |-> SymPrime(n), b |-> [i \in 1..n |-> Primes[13 - i]], c |
 GenericLin(n)  == [Q |-> MZero(n), b |-> [i \in 1..n |-> Primes[i + 3]], c |-> "-9/7"]
 Funcs(n) == {Mono2(n, a, b) : a, b \in 1..n} \cup {Mono1(n, a) : a \in 1..n} \cup {Mono0(n), Generic(n), GenericLin(n)}
 \* zero, ordinary, negative, tiny (p*eps < 1e-6 for every eps), borderline values
-PVals   == {"0", "1", "-2", "1/2", "1/1000000000", "3/10000000", "1/100000", "7"}
+\* (1/100000 and 1/100 sit exactly on the threshold p * eps = 1e-6 for eps = 1/10 and 1/10000)
+PVals   == {"0", "1", "-2", "1/2", "1/1000000000", "3/10000000", "1/100000", "1/100", "7"}
 EpsVals == {"1/10", "1/100", "1/10000"}
 
 InitStencil == /\ depth = -1
@@ -63,6 +64,18 @@ L_GradLinear  == QIsLinear(st.f) => GradFD(F0, st.p, st.eps) = st.f.b
 \* what the one-sided difference returns on a quadratic: the derivative plus h Q_ii / 2 (first order, as specified)
 L_GradOneSided == \A i \in 1..Len(st.p) : OneSided(st.p[i], st.eps) =>
                      GradFD(F0, st.p, st.eps)[i] = RAdd(QGrad(st.f, st.p)[i], RHalf(RMul(st.eps, st.f.Q[i][i])))
+
+\* on the threshold (NearTie) a double-precision implementation may take either stencil for that parameter: all laws
+\* hold for every admissible choice, provided points and divisor belong to the same stencil
+L_TieChoice == \A one \in SidedChoices(st.p, st.eps) :
+                  LET g == GradFDWith(F0, st.p, st.eps, one) IN
+                  /\ HessFDWith(F0, st.p, st.eps, one) = st.f.Q
+                  /\ \A i \in 1..Len(st.p) : ~one[i] => g[i] = QGrad(st.f, st.p)[i]
+                  /\ QIsLinear(st.f) => g = st.f.b
+\* non-vacuity of the above: the model does visit points with more than one admissible choice, and the rule's own
+\* choice is always among them
+L_TieVisited == /\ Sided(st.p, st.eps) \in SidedChoices(st.p, st.eps)
+                /\ (\E i \in 1..Len(st.p) : NearTie(st.p[i], st.eps)) <=> Cardinality(SidedChoices(st.p, st.eps)) > 1
 
 (***************************************************************************)
 (* closed forms of the statistics                                          *)
@@ -128,6 +141,13 @@ L_StatsOfHJ ==
            /\ GodambeMat(H, J1) = GodambeMat(H, J0) /\ IsSym(GodambeMat(H, J0))
            /\ LrtOf(H, J1) = LrtOf(H, J0)
            /\ Quad(c1, MInv(J1), c1) = Quad(c0, MInv(J0), c0)
+\* folding: mass is conserved, the upper half is empty, and the folded model is the linear model of the folded components
+L_Fold == LET md == st.md fm == FoldModel(md) n == Len(md.live)
+              lin == Vec(n, LAMBDA i : Lin(md, i))
+          IN  /\ RSum(FoldVec(lin)) = RSum(lin)
+              /\ \A i \in 1..n : Lin(fm, i) = FoldVec(lin)[i]
+              /\ \A i \in 1..n : i \notin LowerHalf(n) => RIsZero(Lin(fm, i)) /\ ~fm.live[i]
+              /\ FoldVec(FoldVec(lin)) = FoldVec(lin)
 \* the mixture tail: weights (0,1) give the plain chi-square tail, weight on zero d.o.f. only counts for x > 0
 L_Chi2 == /\ Chi2MixTail("3", <<"0", "1">>, <<"9/10">>) = "1/10"
           /\ Chi2MixTail("3", <<"1/2", "1/2">>, <<"9/10">>) = "1/20"
